@@ -65,6 +65,17 @@ def lineSqDist (point vector p : P α) : α :=
   let c := vector.cross v
   (c * c) / vector.sqLen
 
+/-- `LineSegment::closest_point`: `t = min(max(v2·v1 / v1·v1, 0), 1); from + v1*t`.
+(`from == to`: in floats `0/0 = NaN` and `max(NaN, 0) = 0`; in a field `0/0 = 0` — both give `t = 0`.) -/
+def segClosestPoint (a b p : P α) : P α :=
+  let v1 := b - a
+  let v2 := p - a
+  let t := Scalar.min (Scalar.max (v2.dot v1 / v1.dot v1) zero) one
+  a + v1.smul t
+
+/-- `LineSegment::square_distance_to_point` -/
+def segSqDist (a b p : P α) : α := (segClosestPoint a b p - p).sqLen
+
 /-- `num_traits::ToPrimitive::to_u32` on a float: `Some` iff `-1 < x < 2^32` (truncating) -/
 def toU32 [Transc α] (x : α) : Option Nat :=
   if -one < x ∧ x < ofNat 4294967296 then some (Transc.toNat x) else none
@@ -83,10 +94,10 @@ def isAPoint (q : Quad α) (tol : α) : Bool :=
   let tol2 := tol * tol
   decide ((q.a - q.b).sqLen ≤ tol2) && decide ((q.a - q.c).sqLen ≤ tol2)
 
-/-- `is_linear` -/
+/-- `is_linear` (as repaired by 014eb9a5: distance of the control point to the baseline
+*segment*; no `from == to` shortcut) -/
 def isLinear (q : Quad α) (tol : α) : Bool :=
-  if q.a == q.b then true
-  else decide (lineSqDist q.a (q.b - q.a) q.c ≤ tol * tol * four)
+  decide (segSqDist q.a q.b q.c ≤ tol * tol * four)
 
 end Quad
 
@@ -120,8 +131,22 @@ def linear : FlatParams α := ⟨zero, zero, zero, zero, zero⟩
 /-- `if !count.is_finite() { count = 0 }` -/
 def fixCount (count : α) : α := if Transc.isFinite count then count else zero
 
-/-- the general branch of `FlatteningParameters::new` -/
-def general (q : Quad α) (tol : α) : FlatParams α :=
+/-- the real-valued count before `ceil` (as repaired by 3251fd3d: when the parabola's vertex lies
+inside the segment the step around the vertex is bounded, kurbo's cusp branch) -/
+def countEstimate (parabolaFrom parabolaTo integralDiff scale tol : α) : α :=
+  if decide (parabolaFrom < zero) = decide (parabolaTo < zero) then
+    half * Scalar.abs integralDiff * Transc.sqrt (scale / tol)
+  else
+    half * Scalar.abs integralDiff / approxParabolaIntegral (Transc.sqrt (tol / scale))
+
+/-- `cross` of `FlatteningParameters::new`: `(to−from) × (2·ctrl − from − to)` -/
+def flatCross (q : Quad α) : α :=
+  let ddx := two * q.c.x - q.a.x - q.b.x
+  let ddy := two * q.c.y - q.a.y - q.b.y
+  (q.b.x - q.a.x) * ddy - (q.b.y - q.a.y) * ddx
+
+/-- the general branch of `FlatteningParameters::new`, arithmetic as written -/
+def generalCore (q : Quad α) (tol : α) : FlatParams α :=
   let ddx := two * q.c.x - q.a.x - q.b.x
   let ddy := two * q.c.y - q.a.y - q.b.y
   let cross := (q.b.x - q.a.x) * ddy - (q.b.y - q.a.y) * ddx
@@ -135,9 +160,17 @@ def general (q : Quad α) (tol : α) : FlatParams α :=
   let invIntegralFrom := approxParabolaInvIntegral integralFrom
   let invIntegralTo := approxParabolaInvIntegral integralTo
   let divInvIntegralDiff := one / (invIntegralTo - invIntegralFrom)
-  let count := fixCount (Transc.ceil (half * Scalar.abs integralDiff * Transc.sqrt (scale / tol)))
+  let count := fixCount (Transc.ceil (countEstimate parabolaFrom parabolaTo integralDiff scale tol))
   let integralStep := integralDiff / count
   ⟨count, integralFrom, integralStep, invIntegralFrom, divInvIntegralDiff⟩
+
+/-- the general branch in NaN-free normal form: with `cross == 0` (control points exactly
+collinear) the Rust code computes `1/0`, every parameter becomes NaN and
+`if !count.is_finite() { count = 0 }` catches it — the other fields are then never read.
+The explicit branch yields the same observable result on floats and makes the field-side
+statements honest (`x/0 = 0` is never relied on). -/
+def general (q : Quad α) (tol : α) : FlatParams α :=
+  if flatCross q == zero then linear else generalCore q tol
 
 /-- `FlatteningParameters::new` -/
 def new (q : Quad α) (tol : α) : FlatParams α :=
@@ -265,7 +298,7 @@ def flatQuads (tol : α) : List (Quad α × α × α) → Option (List (FlatSeg 
 
 def forEachFlattened (c : Cubic α) (tol : α) : Option (List (FlatSeg α)) :=
   let quadraticsTolerance := tol * FlatConst.value 4 1
-  let flatteningTolerance := tol * FlatConst.value 8 1
+  let flatteningTolerance := tol * FlatConst.value 6 1
   flatQuads flatteningTolerance (c.forEachQuadraticWithT quadraticsTolerance)
 
 /-- the inner closure of `for_each_flattened_with_t`: re-ranges the segments of one quadratic.
@@ -294,7 +327,7 @@ def flatQuadsT (tol : α) : List (Quad α × α × α) → α → Option (List (
 /-- `for_each_flattened_with_t` -/
 def forEachFlattenedWithT (c : Cubic α) (tol : α) : Option (List (FlatSeg α)) :=
   let quadraticsTolerance := tol * FlatConst.value 4 1
-  let flatteningTolerance := tol * FlatConst.value 8 1
+  let flatteningTolerance := tol * FlatConst.value 6 1
   flatQuadsT flatteningTolerance (c.forEachQuadraticWithT quadraticsTolerance) zero
 
 end Cubic
@@ -313,12 +346,17 @@ namespace CubicIter
 /-- `Flattened::new`; `none` = panic in `num_quadratics.to_i32().unwrap()` -/
 def new (c : Cubic α) (tol : α) : Option (CubicIter α) :=
   let quadraticsTolerance := tol * FlatConst.value 4 1
-  let flatteningTolerance := tol * FlatConst.value 8 1
+  let flatteningTolerance := tol * FlatConst.value 6 1
   let nq := c.numQuadraticsImpl quadraticsTolerance
   let rangeStep := one / nq
   let quadratic := (c.splitRange zero rangeStep).toQuadratic
   let current := QuadTIter.new quadratic flatteningTolerance
   (toI32 nq).map (fun n => ⟨c, current, n - 1, flatteningTolerance, rangeStep, zero⟩)
+
+/-- `if remaining_sub_curves <= 0 && t_inner == 1 { curve.to } else { curve.sample(t) }`
+(repair e20d2048: the last point of the last sub-curve is the stored end point) -/
+def lastOr (c : Cubic α) (remaining : Nat) (tInner t : α) : P α :=
+  if remaining = 0 ∧ (tInner == one) = true then c.b else c.sample t
 
 /-- the part of `next` that starts the following sub-curve -/
 def advance (s : CubicIter α) : Option (P α) × CubicIter α :=
@@ -330,13 +368,13 @@ def advance (s : CubicIter α) : Option (P α) × CubicIter α :=
   let r := cur.next
   let tInner := r.1.getD one
   let t := t0 + tInner * s.rangeStep
-  (some (s.curve.sample t),
+  (some (lastOr s.curve (s.remaining - 1) tInner t),
    { s with rangeStart := rangeStart, remaining := s.remaining - 1, current := r.2 })
 
 def next (s : CubicIter α) : Option (P α) × CubicIter α :=
   match s.current.next with
   | (some tInner, cur) =>
-    (some (s.curve.sample (s.rangeStart + tInner * s.rangeStep)), { s with current := cur })
+    (some (lastOr s.curve s.remaining tInner (s.rangeStart + tInner * s.rangeStep)), { s with current := cur })
   | (none, cur) =>
     if s.remaining = 0 then (none, { s with current := cur })
     else advance { s with current := cur }
@@ -357,9 +395,10 @@ def fromPt (a : Arc α) : P α := a.sample zero
 /-- `to()` = `sample(1)` -/
 def toPt (a : Arc α) : P α := a.sample one
 
-/-- `flattening_step` -/
+/-- `flattening_step` (as repaired by 99a81005: the largest radius, not the distance from the
+centre at the start of the step) -/
 def flatteningStep (a : Arc α) (tol : α) : α :=
-  let r := Transc.sqrt (a.fromPt - a.center).sqLen
+  let r := Scalar.max (Scalar.abs a.radii.x) (Scalar.abs a.radii.y)
   let ang := two * Transc.acos ((r - tol) / r)
   let result := Scalar.min (ang / Scalar.abs a.sweep) one
   if result < FlatConst.epsilon then one else result
@@ -386,15 +425,17 @@ end Arc
 /-- state of `arc::Flattened` -/
 structure ArcIter (α : Type) where
   arc : Arc α
+  /-- the original arc's `to()` (repair 6805acc4) -/
+  to : P α
   tolerance : α
   done : Bool
 
 namespace ArcIter
-def new (a : Arc α) (tol : α) : ArcIter α := ⟨a, tol, false⟩
+def new (a : Arc α) (tol : α) : ArcIter α := ⟨a, a.toPt, tol, false⟩
 
 def step (s : ArcIter α) : Option (P α) × ArcIter α :=
   let t := s.arc.flatteningStep s.tolerance
-  if one ≤ t then (some s.arc.toPt, { s with done := true })
+  if one ≤ t then (some s.to, { s with done := true })
   else
     let arc' := s.arc.afterSplit t
     (some arc'.fromPt, { s with arc := arc' })
